@@ -76,6 +76,7 @@ type Scenario struct {
 	Note   string            `json:"note,omitempty"`
 	C14    *C14Payload       `json:"c14,omitempty"`
 	C12    *C12Payload       `json:"c12,omitempty"`
+	C09    *C09Payload       `json:"c09,omitempty"`
 }
 
 // ---- outcome ---------------------------------------------------------------
